@@ -204,7 +204,16 @@ class ParallelLoopTrans(LoopTrans, metaclass=abc.ABCMeta):
         # Add our orphan loop directive setting its parent to the node's
         # parent and its children to the node. This calls down to the sub-class
         # to get the type of directive we require.
-        directive = self._directive([node.detach()], collapse)
+        node.detach()
+        try:
+            directive = self._directive([node], collapse)
+        except Exception:
+            # The sub-class could not create the directive: put the loop
+            # back where it was so that the tree is left unchanged.
+            if node.parent:
+                node.detach()
+            node_parent.addchild(node, index=node_position)
+            raise
 
         # Add the loop directive as a child of the node's parent
         node_parent.addchild(directive, index=node_position)
